@@ -47,14 +47,20 @@ static void script(void) {
     return;
   }
   VASSERT(t != NULL, "p_tree_new_with_data succeeds when no allocation fails");
+  int retried_ok = 0;
   for (int i = 0; i < TOPS; i++) {
     size_t k = (i == TOPS - 1 && c18_choice) ? 1 : (size_t) (i + 1), v = 100 + i;
-    int at = ref_find(k), live0 = vm_live;
-    f0 = vm_failed;
-    p_tree_insert(t, (ppointer) k, (ppointer) v);
-    if (at >= 0) { rv[at] = v; VASSERT(vm_live == live0, "replacing a pair leaves the number of blocks unchanged"); }
-    else if (C18_FAILED_SINCE(f0)) VASSERT(vm_live == live0, "failed insert leaves nothing allocated");
-    else ref_insert(k, v);
+    int at = ref_find(k);
+    for (int attempt = 0; attempt < 2; attempt++) {      /* a failed insert is retried once */
+      int live0 = vm_live;
+      f0 = vm_failed;
+      p_tree_insert(t, (ppointer) k, (ppointer) v);
+      if (at >= 0) { rv[at] = v; VASSERT(vm_live == live0, "replacing a pair leaves the number of blocks unchanged"); break; }
+      if (C18_FAILED_SINCE(f0)) { VASSERT(vm_live == live0, "failed insert leaves nothing allocated"); same_as_model(t); continue; }
+      ref_insert(k, v);
+      if (attempt == 1) retried_ok = 1;
+      break;
+    }
     same_as_model(t);
   }
   /* still usable: remove the smallest stored key */
@@ -67,5 +73,8 @@ static void script(void) {
   p_tree_free(t);
   c18_end(1 + TOPS);
   if (rn == TOPS - 1) VWITNESS("all inserts stored");
+#ifndef NOFAIL
+  if (retried_ok) VWITNESS("a failed insert succeeded when retried: node count, in-order content and lookups as without the failure");
+#endif
   if (vm_failed == 0 && rn == TOPS - 2) VWITNESS("a replacement happened");
 }
